@@ -1438,6 +1438,7 @@ func phaseN(c *vlib.Ctx, pl namesPlan) {
 		}
 	}
 	c.Extra("bucket_name_environments_closed", int64(len(envs)))
+	c.Logf("phase N: %d bucket-name environments, each explored to closure", len(envs))
 }
 
 func TestCheck(t *testing.T) {
@@ -1449,7 +1450,7 @@ func TestCheck(t *testing.T) {
 			"thorough: phase A pool of 3 ids, both buckets of the org; phase B pool of 1 id plus virtual ids {11,12,21}; phase C pool of 2 ids plus virtual ids {11,21} (rp∈{autogen,rp1}). Each phase is a BFS to closure. " +
 			"phase N (bucket-name dimension): org 1 owns 'plain1' plus EVERY ordered selection (creation order = listing order = id order) of 0..k distinct names of an alphabet whose members parse to colliding (db, rp) pairs " +
 			"(quick: {db, db/autogen, db/rp1, dbx, dbx/autogen, db/autogen/x}, k=3, 157 environments; thorough: the same plus db/rp1/x, k=4, 1100 environments); in each environment a BFS to closure over create/update/delete of org 1 " +
-			"(quick: pool of 2 ids for k≤2 and 1 id for k=3, bucket fixed per id; thorough: pool of 2 ids for k≤3 and 1 id for k=4, both 'plain1' and the first enumerated bucket as targets), the initial state being judged too. " +
+			"(quick: pool of 2 ids for k≤2 and 1 id for k=3; thorough: pool of 2 ids for k≤3 and 1 id for k=4; the target bucket is fixed per id: 'plain1' for the first id, the first enumerated bucket for the second), the initial state being judged too. " +
 			"Every transition = replay of the state's shortest history on a fresh real dbrp.Service (inmem kv) plus one op; after each: listing per org, per (org,db), over all orgs, resolution of every (org,db,rp) incl. the rps the bucket names parse to, empty-rp lookup, FindByID " +
 			"are checked against the statement (every lookup result names ≤1 bucket per (org,db,rp) — of several colliding virtual candidates either may win, never both, and none beside a stored mapping of the pair; ≤1 default per (org,db) in every result; exactly one default per database that has stored mappings; " +
 			"the empty-rp lookup returns it; every returned mapping's bucket exists in its org; stored mappings = those built by the ops). " +
@@ -1480,7 +1481,7 @@ func TestCheck(t *testing.T) {
 					{name: "B", slots: 1, vIDs: []uint64{11, 12, 21}, vRPs: []string{"autogen", "rp1"}},
 					{name: "C", slots: 2, vIDs: []uint64{11, 21}, vRPs: []string{"autogen", "rp1"}},
 				}
-				pl = namesPlan{alpha: nameAlphabetThorough, maxNames: 4, bothBkts: true, slots: func(n []string) int {
+				pl = namesPlan{alpha: nameAlphabetThorough, maxNames: 4, slots: func(n []string) int {
 					if len(n) <= 3 {
 						return 2
 					}
